@@ -15,11 +15,11 @@ import (
 	"bytes"
 	"context"
 	"encoding/json"
+	"fmt"
+	"io"
 	"os"
 	"strings"
 	"testing"
-	"fmt"
-	"io"
 	"testing/synctest"
 	"time"
 
@@ -262,6 +262,12 @@ func TestVerifC20Syncer(t *testing.T) {
 	for _, mode := range []string{"wplain", "bisync"} {
 		for _, c := range vfc20.ExhaustiveBad(mode) {
 			run(c, "exhaustive-bad-data")
+		}
+		for _, c := range vfc20.ExhaustiveModule(mode) {
+			run(c, "exhaustive-module")
+		}
+		for _, c := range vfc20.ExhaustiveBig(mode) {
+			run(c, "exhaustive-big")
 		}
 	}
 	// a client write between the EXISTS probe and the unit's EXEC (bidirectional, RESTORE path)
